@@ -8,7 +8,7 @@ From Coq.Strings Require Import Byte.
 From GI Require Import Lib.Bytes Lib.BytesFacts Gen.TxtarConsts Gen.TxtarWriteConsts
   Txtar.Txtar Txtar.TxtarFacts Txtar.QuoteFacts
   TxtarWrite.Path TxtarWrite.TxtarWrite TxtarWrite.PathFacts TxtarWrite.WriteFacts
-  TxtarWrite.GoodWrite.
+  TxtarWrite.NulFacts TxtarWrite.RelFacts TxtarWrite.GoodWrite.
 Import ListNotations.
 
 Local Arguments savedir_entry : simpl never.
@@ -38,6 +38,15 @@ Definition tree_ok (t : tree) : Prop :=
   (forall p, In p (map fst t) ->
      p <> [] /\ Forall real p /\ Forall nul_free p /\ wf_name (join_sep p) = true) /\
   (forall p q, In p (map fst t) -> In q (map fst t) -> within p q -> p = q).
+
+(* what tree_ok demands of a name, spelled out: the names txtar cannot represent (empty,
+   with leading or trailing white space, containing a newline) are excluded *)
+Lemma tree_ok_names t p :
+  tree_ok t -> In p (map fst t) ->
+  join_sep p <> [] /\ trim_space (join_sep p) = join_sep p /\ ~ In NL (join_sep p).
+Proof.
+  intros [_ [H _]] Hp. destruct (H p Hp) as [_ [_ [_ Hw]]]. apply wf_name_iff. exact Hw.
+Qed.
 
 Lemma tree_ok_perm t t' : Permutation t t' -> tree_ok t -> tree_ok t'.
 Proof.
@@ -277,10 +286,11 @@ Qed.
 
 Section RoundTrip.
 Variables (fl : sflags) (t : tree) (cwd : path) (fs : fsys) (dir : bytes).
-Hypothesis Ha : is_abs dir = true.
+Hypothesis Hcr : Forall real cwd.
+Hypothesis Hcn : Forall nul_free cwd.
+Hypothesis Hdn : has_nul dir = false.
 Hypothesis Ht : tree_ok t.
 Let D := resolve cwd dir.
-Hypothesis HDn : Forall nul_free D.
 Hypothesis HDe : dir_exists fs D.
 Hypothesis Hempty : forall q, beneath D q -> get fs q = None.
 
@@ -334,14 +344,14 @@ Proof.
   rewrite (PathFacts.bytes_eqb_neq fp dotdot) by auto. reflexivity.
 Qed.
 
-Lemma ks_good : good_paths ([] ++ map fst ks).
+Lemma ks_good : good_paths (map fst ks).
 Proof.
-  simpl. destruct w_ok as [W1 [W2 W3]]. split; [apply kp_NoDup; auto|]. split.
+  destruct w_ok as [W1 [W2 W3]]. split; [apply kp_NoDup; auto|]. split.
   - intros p Hp. apply kp_In_fst in Hp. destruct (W2 p Hp) as [A [B [C _]]]. auto.
   - intros p q Hp Hq. apply W3; apply (kp_In_fst fl); auto.
 Qed.
 
-Lemma inv_init : inv cwd dir [] fs.
+Lemma inv_init : inv D [] fs.
 Proof.
   split; [exact HDe|]. split.
   - intros q x HB Hg. rewrite (Hempty q HB) in Hg. discriminate.
@@ -353,8 +363,7 @@ Lemma resolve_join_good p :
 Proof.
   intros Hne HR. unfold from_slash. rewrite clean_render_false by auto.
   replace (join_sep p) with (render false p) by (destruct p; [contradiction|reflexivity]).
-  rewrite (join_abs cwd) by auto. apply resolve_render_true.
-  apply Forall_app. split; [apply resolve_abs_real; auto|auto].
+  apply resolve_join. auto.
 Qed.
 
 Theorem savedir_extract_main :
@@ -371,8 +380,8 @@ Proof.
   assert (EF : files (savedir fl t) = map entry_of ks).
   { unfold savedir. fold w. cbn [files]. apply files_kp. }
   unfold write. rewrite EF.
-  destruct (write_gen_good cwd the_guard the_flags dir the_guard_pass the_flags_excl Ha HDn
-              ks [] fs inv_init ks_good) as [fs' [EW [_ [K2 _]]]].
+  destruct (write_gen_good_dir cwd the_guard the_flags dir the_guard_pass the_flags_excl Hcr Hcn Hdn
+              ks fs inv_init ks_good) as [fs' [EW [_ [K2 _]]]].
   exists fs'. split; [exact EW|]. split.
   - intros p d cl n s HI ES.
     assert (HIw : In (p, d) w) by (eapply Permutation_in; [apply Permutation_sym, walk_order_perm|auto]).
@@ -416,10 +425,11 @@ Qed.
 
 End RoundTrip.
 
-(* the statement with every hypothesis visible *)
+(* the statement with every hypothesis visible: ANY NUL-free directory string, resolved
+   against a current directory of real, NUL-free elements *)
 Theorem savedir_extract : forall fl t cwd fs dir,
-  is_abs dir = true -> tree_ok t ->
-  Forall nul_free (resolve cwd dir) -> dir_exists fs (resolve cwd dir) ->
+  Forall real cwd -> Forall nul_free cwd -> has_nul dir = false -> tree_ok t ->
+  dir_exists fs (resolve cwd dir) ->
   (forall q, beneath (resolve cwd dir) q -> get fs q = None) ->
   exists fs',
     extract cwd fs dir (txtar_c fl t) = (fs', WOk) /\
